@@ -509,10 +509,10 @@ impl<Service: service::Service, Resource: ServiceResource> Receiver<Service, Res
                         ret_val = Some((details, absolute_address));
                         break;
                     } else {
-                        let (_has_data, has_borrows) =
+                        let (has_data, has_borrows) =
                             Self::receiver_channels_have_data_or_borrows(receiver);
 
-                        if !has_borrows {
+                        if !has_borrows && !has_data {
                             index_and_key = Some((indices_to_skip + n, *connection_key));
                             break;
                         }
